@@ -97,7 +97,11 @@ func (h *negHandler) Handle(ctx context.Context, m p9p.Message) (p9p.Message, er
 	h.mu.Unlock()
 	switch v := m.(type) {
 	case p9p.MessageTread:
-		return p9p.MessageRread{Data: make([]byte, v.Count)}, nil
+		n := int64(v.Count)
+		if n > 1<<21 {
+			n = 1 << 21 // (enough to overflow any msize in use here without allocating 4 GiB)
+		}
+		return p9p.MessageRread{Data: make([]byte, n)}, nil
 	case p9p.MessageTwrite:
 		return p9p.MessageRwrite{Count: uint32(len(v.Data))}, nil
 	case p9p.MessageTstat:
@@ -202,10 +206,18 @@ func negServerCase(l negLine, version string, variant int, res *hx.Result) {
 		// a read of 2^32-1 bytes: the reply must fit
 		n0 = h.ncalls()
 		r, err = rt(2, p9p.MessageTread{Fid: 1, Count: 0xFFFFFFFF})
-		if err == nil && h.ncalls() == n0+1 {
-			if tr, ok := h.calls[n0].(p9p.MessageTread); ok && int(tr.Count) > ms-11 {
+		if h.ncalls() >= n0+1 {
+			h.mu.Lock()
+			tr, ok := h.calls[n0].(p9p.MessageTread)
+			h.mu.Unlock()
+			if ok && int64(tr.Count) > int64(ms-11) {
 				res.Violate("C10", "read-count-not-lowered:"+sig, fmt.Sprintf("handler was asked for %d bytes, the agreed msize %d allows %d", tr.Count, ms, ms-11), rep)
 			}
+		}
+		if err != nil || r.Type != p9p.Rread {
+			res.Violate("C10", "maximal-read-fails:"+sig, fmt.Sprintf("a read of 2^32-1 bytes after agreeing on msize %d must be answered with an Rread that fits (the handler returns as much as it is asked for); got %v", ms, err), rep)
+		} else if rr := r.Message.(p9p.MessageRread); len(rr.Data) != ms-11 {
+			res.Violate("C10", "maximal-read-size:"+sig, fmt.Sprintf("a read of 2^32-1 bytes after agreeing on msize %d returned %d bytes, a frame of exactly msize carries %d", ms, len(rr.Data), ms-11), rep)
 		}
 	}
 	if variant%2 == 0 {
